@@ -140,6 +140,78 @@ def drive_gen(rec):
     return t
 
 
+def _fixed(v, scale, ndec, width):
+    a = abs(v)
+    return (("-" if v < 0 else "") + "%d.%0*d" % (a // scale, ndec, a % scale)).rjust(width)
+
+
+def drive_pdb(rec):
+    """A PDB file proposed for a cell and atoms given as integers (TLC certifies the text), read with Crystal.from_pdb_file."""
+    import numpy as np
+    import tempfile
+    import shutil
+    import io
+    import contextlib
+    from chmpy.crystal import Crystal
+    cell, atoms = rec["cell"], rec["atoms"]
+    lines = ["CRYST1" + "".join(_fixed(x, 1000, 3, 9) for x in cell["len"]) + "".join(_fixed(x, 100, 2, 7) for x in cell["ang"])
+             + " " + cell["sg"].ljust(11) + ("" if cell["z"] == 0 else str(cell["z"]).rjust(4))]
+    for a in atoms:
+        lines.append(("HETATM" if a["het"] else "ATOM  ") + str(a["serial"]).rjust(5) + " " + a["name"].ljust(4) + " " + a["res"].ljust(3)
+                     + " A" + str(a["seq"]).rjust(4) + " " + "   " + _fixed(a["x"], 1000, 3, 8) + _fixed(a["y"], 1000, 3, 8) + _fixed(a["z"], 1000, 3, 8)
+                     + _fixed(a["occ"], 100, 2, 6) + _fixed(a["b"], 100, 2, 6) + " " * 10 + xtal.SYMBOLS[a["zel"]].upper().rjust(2))
+    lines.append("END")
+    enc = lambda s_: [ord(c) for c in s_]  # noqa: E731
+    t = {"cell": {"len": cell["len"], "ang": cell["ang"], "sg": enc(cell["sg"]), "z": cell["z"]},
+         "atoms": [dict(a, name=enc(a["name"]), res=enc(a["res"])) for a in atoms], "lines": [enc(l) for l in lines], "exc": "", "off": False,
+         "loaded": {"len": [0, 0, 0], "ang": [0, 0, 0], "atoms": []},
+         "meta": {"recipe": rec, "source": "spec-written-pdb", "nontrivial": True,
+                  "impl_call": "Crystal.from_pdb_file(<CRYST1 + %d ATOM/HETATM records>)" % len(atoms)}}
+    d = tempfile.mkdtemp(prefix="c10pdb-", dir=os.path.join(VERIF, "out"))
+    try:
+        path = os.path.join(d, "cell.pdb")
+        with open(path, "w") as fh:
+            fh.write("\n".join(lines) + "\n")
+        with contextlib.redirect_stdout(io.StringIO()):          # the reader prints what it found
+            cr = Crystal.load(path) if rec["via"] == "load" else Crystal.from_pdb_file(path)
+        uc = cr.unit_cell
+        ln = [uc.a * 1000.0, uc.b * 1000.0, uc.c * 1000.0]
+        an = [uc.alpha_deg * 100.0, uc.beta_deg * 100.0, uc.gamma_deg * 100.0]
+        cart = np.asarray(cr.to_cartesian(np.asarray(cr.asymmetric_unit.positions, dtype=float)), dtype=float) * 1000.0
+        off = any(abs(x - round(x)) > 1e-6 for x in ln + an) or bool(np.any(np.abs(cart - np.rint(cart)) > 1e-5))
+        t["loaded"] = {"len": [int(round(x)) for x in ln], "ang": [int(round(x)) for x in an],
+                       "atoms": [{"zel": int(z), "name": enc(str(lab)), "x": int(round(c[0])), "y": int(round(c[1])), "z": int(round(c[2]))}
+                                 for z, lab, c in zip(cr.asymmetric_unit.atomic_numbers, cr.asymmetric_unit.labels, cart)]}
+        t["off"] = bool(off)
+    except Exception as e:
+        t["exc"] = type(e).__name__
+    finally:
+        shutil.rmtree(d, ignore_errors=True)
+    return t
+
+
+def pdb_recipes(rng, count):
+    out = []
+    sgs = ["P 1", "P -1", "P 1 21 1", "P 21 21 21", "C 1 2 1", "P 1 21/c 1"]
+    for _ in range(count):
+        fam = rng.choice(["tric", "mono", "ortho"])
+        ang = {"tric": [rng.randint(7000, 11000) for _ in range(3)], "mono": [9000, rng.randint(9100, 12500), 9000], "ortho": [9000] * 3}[fam]
+        cell = {"len": [rng.randint(3000, 99999) for _ in range(3)], "ang": ang, "z": rng.choice([0, 1, 2, 4, 8, 12]),
+                "sg": {"tric": rng.choice(sgs[:2]), "mono": rng.choice(sgs[2:3] + sgs[4:]), "ortho": sgs[3]}[fam]}
+        atoms = []
+        for k in range(rng.randint(1, 8)):
+            zel = rng.choice([1, 6, 7, 8, 15, 16, 17, 26, 53, 35])
+            sym = xtal.SYMBOLS[zel].upper()
+            name = (" " + sym + str(k + 1))[:4] if len(sym) == 1 and rng.random() < 0.7 else (sym + str(k + 1))[:4]
+            atoms.append({"het": rng.random() < 0.3, "serial": k + 1, "name": name.strip() if rng.random() < 0.5 else name.rstrip(), "res": rng.choice(["ALA", "HOH", "LIG", "CL"]),
+                          "seq": rng.randint(1, 999), "x": rng.randint(-99999, 999999), "y": rng.randint(-9999, 99999), "z": rng.randint(-9999, 99999),
+                          "occ": rng.choice([100, 100, 50, 37]), "b": rng.randint(0, 9999), "zel": zel})
+        for a in atoms:
+            a["name"] = a["name"].strip()
+        out.append({"cell": cell, "atoms": atoms, "via": rng.choice(["load", "from_pdb_file"])})
+    return out
+
+
 def gen_recipes(rng, count):
     out = []
     for _ in range(count):
@@ -418,6 +490,9 @@ def run(ctx):
     import random as _random
     gtraces = pool_map(drive_gen, gen_recipes(_random.Random(ctx.seed * 131 + 10), ctx.pick(120, 1500)))
     ctx.validate("trace/Trace_GenFile.tla", gtraces, name="Trace_GenFile (extension)", extension=True, timeout=600)
+    # ... and PDB files (PdbFile.tla: the specification writes the records in the fixed columns of the format)
+    ptraces = pool_map(drive_pdb, pdb_recipes(_random.Random(ctx.seed * 137 + 10), ctx.pick(100, 1200)))
+    ctx.validate("trace/Trace_PdbFile.tla", ptraces, name="Trace_PdbFile (extension)", extension=True, timeout=600)
     ctx.exhaustive = False
     ctx.rule = ("every one of the %d tabulated settings x %d seeded crystals x {CIF, SHELX .res, POSCAR}: 1-4 sites (general and special "
                 "positions, labels El<digits><suffix>, partial occupancies for CIF) on grids N in {12,24,48}, cells from a symmetrised "
